@@ -78,6 +78,16 @@ def generate(rng, tier):
         yield {"shape": shape, "fam": fam, "wseed": rng.randrange(10**6), "ecs": ecs, "which": which, "points": pts,
                "keepdims": rng.random() < 0.4, "alt_units": alt_units, "floats": rng.random() < 0.3,
                "malformed": rng.choice(["lengths", "ncomp", "unit", "nounit", "class"]) if rng.random() < 0.06 else None}
+    # systematic: two points that differ along one axis only, on FITS grids - along a wavelength axis in metres the
+    # difference is tiny in absolute terms, and both points still bound the region
+    for fam in ("fits_sep", "fits_cel", "fits_rot"):
+        for nd in (2, 3):
+            for ax in range(nd):
+                for lo, hi in ((1, 4), (0.25, 2.625)) * (5 if fam == "fits_sep" else 1):   # (the axis order depends on wseed)
+                    yield {"shape": [6] * nd, "fam": fam, "wseed": rng.randrange(10**6), "ecs": [], "which": "wcs",
+                           "points": [{"pix": [lo if a == ax else 2 for a in range(nd)], "none_bits": 0},
+                                      {"pix": [hi if a == ax else 2 for a in range(nd)], "none_bits": 0}],
+                           "keepdims": False, "alt_units": False, "floats": False, "malformed": None}
 
 
 def groups_of(corr):
